@@ -1,4 +1,5 @@
 import SJ.Props.C04
+import SJ.Props.C04Ap
 #print axioms SJ.Props.C04.c04_written_text
 #print axioms SJ.Props.C04.c04_reads_back
 #print axioms SJ.Props.C04.c04_value
@@ -19,3 +20,5 @@ import SJ.Props.C04
 #print axioms SJ.Props.C04.c04_typed_pretty_fr
 #print axioms SJ.Props.C04.c04_typed_f32_leaf_default
 #print axioms SJ.Props.C04.c04_typed_ap_partial
+#print axioms SJ.Props.C04Ap.c04_ap_value
+#print axioms SJ.Props.C04Ap.c04_ap_token_not_identity
